@@ -1105,6 +1105,56 @@ class World:
             self.old_touch += 1
         return "ok" if oks else f"raise"
 
+    def op_xcopy(self, op):
+        """Copy a node *object* of another open record (or of a plain HDF5 file) into this
+        record: IH5 copies by value, the result must equal h5py's cross-file copy."""
+        r = self.rec(op["rec"])
+        o = self.rec(op["from"])
+        if not r.is_open or not o.is_open or r.idx == o.idx:
+            return "skip"
+        try:
+            src_ref = o.ref[op["src"]]
+        except Exception:
+            return "nosrc"
+        try:
+            src_sut = o.ref[op["src"]] if op.get("from_plain") else o.obj[op["src"]]
+        except Exception as e:
+            raise Violation("C01", "outcome", f"lookup of {op['src']!r} raised {type(e).__name__} on IH5 but works on the plain tree")
+        d0 = V.dump_tree(o.ref)[0]
+        _steps["n"] = 0
+        _steps["limit"] = 4 * (len(d0) + sum(len(e[-1]) for e in d0.values())) + 40
+        if not r.writable:
+            try:
+                r.obj.copy(src_sut, op["dst"])
+                ok = True
+            except Exception:
+                ok = False
+            finally:
+                _steps["limit"] = 10**9
+            if ok:
+                raise Violation("C03", "write-while-readonly", "copy from another record succeeded although no writable container exists", shape="xcopy")
+            return "refused"
+        try:
+            r.ref.copy(src_ref, op["dst"])
+            okr = True
+        except Exception:
+            okr = False
+        try:
+            r.obj.copy(src_sut, op["dst"])
+            oks, exc = True, None
+        except SimRunaway:
+            raise
+        except Exception as e:
+            oks, exc = False, e
+        finally:
+            _steps["limit"] = 10**9
+        self.probe("cross_container_copies")
+        if okr != oks:
+            raise Violation("C01", "outcome", f"copy of node object {op['src']!r} from {'a plain HDF5 file' if op.get('from_plain') else 'another record'} to {op['dst']!r}: plain tree {'succeeds' if okr else 'raises'}, IH5 {'succeeds' if oks else 'raises ' + type(exc).__name__ + ': ' + str(exc)[:80]}", shape="xcopy")
+        self.check_view(r, "C01", "view-eq", extra="after copy from another container")
+        self.check_view(o, "C01", "view-eq", extra="source record after copy to another container")
+        return "ok" if oks else "raise"
+
     def shape_of(self, op):
         if op["op"] == "copy":
             src = T.Shadow.join(op["base"], op["src"]).rstrip("/")
@@ -1156,6 +1206,8 @@ class World:
             out = self.op_check_history(op)
         elif k == "open_prefix":
             out = self.op_open_prefix(op)
+        elif k == "xcopy":
+            out = self.op_xcopy(op)
         elif k in EXTRA_OPS:
             out = EXTRA_OPS[k](self, op)
         else:
@@ -1230,6 +1282,8 @@ class IH5StoreEngine:
         nrec = 1
         if profile in ("restart", "immutable") and g.random() < 0.6:
             nrec = g.choice([2, 2, 3, 4])
+        if profile == "overlay" and g.random() < 0.25:
+            nrec = 2  # two records: copies of node objects from one container into another
         cfg["classes"] = {}
         recs = g.sample(range(4), nrec) if nrec > 1 else [g.choice([0, 0, 0, 1, 2, 3])]
         mfprob = {"overlay": 0.25, "immutable": 0.5, "restart": 0.5, "merge": 0.5}[profile]
@@ -1418,6 +1472,20 @@ class IH5StoreEngine:
                 tgt = dgen[i].existing(shadows[i])
                 if tgt:
                     chain = {"rec": i, "path": tgt, "left": g.randint(2, 5), "stage": 0}
+                    continue
+            if len(recs) > 1 and g.random() < 0.08:
+                j = g.choice([x for x in recs if x != i])
+                srcp = dgen[j].existing(shadows[j])
+                if srcp and st[j]["open"]:
+                    dst = dgen[i].fresh_path(shadows[i]) if g.random() < 0.8 else (dgen[i].existing(shadows[i]) or "/zz")
+                    xo = {"op": "xcopy", "rec": i, "from": j, "src": srcp, "dst": dst, "from_plain": g.random() < 0.3}
+                    if s["writable"]:
+                        for q in shadows[j].under(srcp):
+                            nq = dst + q[len(srcp):]
+                            if nq not in shadows[i].nodes and shadows[i].ensure_parents(nq):
+                                shadows[i].nodes[nq] = shadows[j].nodes[q]
+                                shadows[i].attrs[nq] = set(shadows[j].attrs.get(q, ()))
+                    emit(xo)
                     continue
             op = dgen[i].gen(shadows[i])
             op["rec"] = i
